@@ -17,10 +17,14 @@
 //! registry's `HashMap` observed (through `get_all_nodes`) right before every
 //! route / rebalance.
 //!
+//! Some routes run while "another task" mutates the registry at the
+//! `verif_hooks` pause point between `assign_shard` and the node lookup
+//! (`RTI`): this is what exercises the retry loop and its bound.
+//!
 //! Oracle (independent of the model; evaluated on a shadow registry kept by
 //! this harness): every route returns within the budget; an `Ok(node)` is
-//! healthy, of an ingesting type and below the 95 % load threshold at that
-//! moment; the routed shard is assigned to exactly the returned node; an
+//! healthy, of an ingesting type and below the 95 % load threshold at the
+//! moment of its lookup; the routed shard is assigned to exactly the returned node; an
 //! assignment only changes by a rebalance or by routing that very shard while
 //! its node is not eligible.
 use cardinalsin::cluster::{
@@ -41,6 +45,8 @@ use std::time::{Duration, Instant};
 /// 75 % must — tests/cluster_tests.rs).  Deliberately NOT read from the code.
 const OVERLOAD_AT: u8 = 95;
 const WATCHDOG: Duration = Duration::from_secs(20);
+/// pause point of the verif_hooks feature inside route_write (between assign_shard and get_node)
+const PAUSE: &str = "cluster.route_write.after_assign";
 
 // ------------------------------------------------------------------ cases ----
 #[derive(Clone, Debug, PartialEq)]
@@ -53,7 +59,56 @@ enum Op {
     Rm { n: u32 },
     Rb,
     Rt { s: u32 },
+    /// route_write while "another task" mutates the registry at the pause point between the
+    /// assignment and the node lookup: per attempt a list of mutations, used cyclically
+    Rti { s: u32, spec: Vec<Vec<RegOp>> },
     Ob,
+}
+
+#[derive(Clone, Debug, PartialEq)]
+enum RegOp {
+    St { n: u32, st: u8 },
+    Ld { n: u32, load: u8 },
+    Rm { n: u32 },
+}
+
+fn spec_text(spec: &[Vec<RegOp>]) -> String {
+    spec.iter()
+        .map(|att| {
+            if att.is_empty() {
+                "_".to_string()
+            } else {
+                att.iter()
+                    .map(|o| match o {
+                        RegOp::St { n, st } => format!("ST.{}.{}", n, st),
+                        RegOp::Ld { n, load } => format!("LD.{}.{}", n, load),
+                        RegOp::Rm { n } => format!("RM.{}", n),
+                    })
+                    .collect::<Vec<_>>()
+                    .join("+")
+            }
+        })
+        .collect::<Vec<_>>()
+        .join("/")
+}
+
+fn parse_spec(t: &str) -> Vec<Vec<RegOp>> {
+    t.split('/')
+        .map(|att| {
+            att.split('+')
+                .filter_map(|o| {
+                    let f: Vec<&str> = o.split('.').collect();
+                    let p = |i: usize| -> u32 { f.get(i).and_then(|x| x.parse().ok()).unwrap_or(0) };
+                    match f[0] {
+                        "ST" => Some(RegOp::St { n: p(1), st: p(2) as u8 }),
+                        "LD" => Some(RegOp::Ld { n: p(1), load: p(2) as u8 }),
+                        "RM" => Some(RegOp::Rm { n: p(1) }),
+                        _ => None,
+                    }
+                })
+                .collect()
+        })
+        .collect()
 }
 
 #[derive(Clone, Debug, PartialEq)]
@@ -73,6 +128,7 @@ fn op_text(o: &Op) -> String {
         Op::Rm { n } => format!("RM {}", n),
         Op::Rb => "RB".to_string(),
         Op::Rt { s } => format!("RT {}", s),
+        Op::Rti { s, spec } => format!("RTI {} {}", s, spec_text(spec)),
         Op::Ob => "OB".to_string(),
     }
 }
@@ -102,6 +158,7 @@ fn parse_case(line: &str) -> Case {
             "RM" => c.ops.push(Op::Rm { n: p(1) }),
             "RB" => c.ops.push(Op::Rb),
             "RT" => c.ops.push(Op::Rt { s: p(1) }),
+            "RTI" => c.ops.push(Op::Rti { s: p(1), spec: parse_spec(f.get(2).copied().unwrap_or("_")) }),
             "OB" => c.ops.push(Op::Ob),
             _ => {}
         }
@@ -227,7 +284,7 @@ fn worker_history(rt: &tokio::runtime::Runtime, case: &Case) {
     let salt = case.salt;
     for (i, op) in case.ops.iter().enumerate() {
         let order = match op {
-            Op::Rb | Op::Rt { .. } => rt.block_on(order_of(&c)),
+            Op::Rb | Op::Rt { .. } | Op::Rti { .. } => rt.block_on(order_of(&c)),
             _ => "-".to_string(),
         };
         say(format!("B {} {}", i, order));
@@ -275,6 +332,46 @@ fn worker_history(rt: &tokio::runtime::Runtime, case: &Case) {
                     Ok(None) => "ok:none".to_string(),
                     Err(e) => format!("err:{}", err_code(&e)),
                 },
+                Op::Rti { s, spec } => {
+                    // the route future and "the other task" run on this one thread; the other
+                    // task acts exactly when route_write sits at its pause point
+                    let mut gate = cardinalsin::verif_hooks::register_gate(PAUSE);
+                    let shard = shard_name(salt, *s);
+                    let route = c.router.route_write(&shard);
+                    tokio::pin!(route);
+                    let mut k = 0usize;
+                    let r = loop {
+                        tokio::select! {
+                            biased;
+                            r = &mut route => break r,
+                            Some((_, resume)) = gate.recv() => {
+                                if !spec.is_empty() {
+                                    for o in &spec[k % spec.len()] {
+                                        match o {
+                                            RegOp::St { n, st } => {
+                                                if let Some(mut info) = c.registry.get_node(&node_name(salt, *n)).await {
+                                                    info.status = status(*st);
+                                                    c.registry.register_node(info).await;
+                                                }
+                                            }
+                                            RegOp::Ld { n, load } => c.registry.update_load(&node_name(salt, *n), *load).await,
+                                            RegOp::Rm { n } => c.registry.remove_node(&node_name(salt, *n)).await,
+                                        }
+                                    }
+                                }
+                                k += 1;
+                                let _ = resume.send(());
+                            }
+                        }
+                    };
+                    cardinalsin::verif_hooks::clear_gate(PAUSE);
+                    let txt = match r {
+                        Ok(Some(node)) => format!("ok:{}", id_of(&node.id)),
+                        Ok(None) => "ok:none".to_string(),
+                        Err(e) => format!("err:{}", err_code(&e)),
+                    };
+                    format!("{}#{}", txt, k)
+                }
                 Op::Ob => {
                     let mut r: Vec<(u32, u8, u8, u8)> = c
                         .registry
@@ -354,6 +451,8 @@ struct ImplRun {
     orders: Vec<String>,
     /// "abort" (child died, e.g. stack overflow -> SIGABRT) or "hang" (watchdog)
     died: Option<String>,
+    /// per executed op: how many times route_write reached its pause point (RTI only)
+    pauses: Vec<usize>,
 }
 
 struct Impl {
@@ -372,7 +471,7 @@ impl Impl {
             self.w = Some(Worker::spawn());
         }
         let w = self.w.as_mut().unwrap();
-        let mut run = ImplRun { tokens: Vec::new(), orders: Vec::new(), died: None };
+        let mut run = ImplRun { tokens: Vec::new(), orders: Vec::new(), died: None, pauses: Vec::new() };
         let sent = writeln!(w.stdin, "{}", case_text(case)).is_ok() && w.stdin.flush().is_ok();
         let deadline = Instant::now() + WATCHDOG;
         let mut open: Option<usize> = None; // op begun, not yet finished
@@ -391,7 +490,18 @@ impl Impl {
                     } else if let Some(rest) = l.strip_prefix("E ") {
                         let mut it = rest.splitn(2, ' ');
                         let _ = it.next();
-                        run.tokens.push(it.next().unwrap_or("").to_string());
+                        // `res#k|A=..|L=..`: k (pause points reached) is for the oracle only
+                        let tok = it.next().unwrap_or("").to_string();
+                        let (res, rest) = match tok.find('|') {
+                            Some(i) => (tok[..i].to_string(), tok[i..].to_string()),
+                            None => (tok.clone(), String::new()),
+                        };
+                        let (res, k) = match res.find('#') {
+                            Some(i) => (res[..i].to_string(), res[i + 1..].parse().unwrap_or(0)),
+                            None => (res, 0),
+                        };
+                        run.pauses.push(k);
+                        run.tokens.push(format!("{}{}", res, rest));
                         open = None;
                     }
                 }
@@ -442,7 +552,7 @@ fn model_line(case: &Case, run: &ImplRun, vnodes: usize) -> String {
                     nodes.push(*n)
                 }
             }
-            Op::Rt { s } => {
+            Op::Rt { s } | Op::Rti { s, .. } => {
                 if !shards.contains(s) {
                     shards.push(*s)
                 }
@@ -463,6 +573,7 @@ fn model_line(case: &Case, run: &ImplRun, vnodes: usize) -> String {
         match o {
             Op::Rb => v.push(format!("RB {}", run.orders.get(i).map(|s| s.as_str()).unwrap_or("-"))),
             Op::Rt { s } => v.push(format!("RT {} {}", s, run.orders.get(i).map(|s| s.as_str()).unwrap_or("-"))),
+            Op::Rti { s, spec } => v.push(format!("RTI {} {} {}", s, run.orders.get(i).map(|s| s.as_str()).unwrap_or("-"), spec_text(spec))),
             _ => v.push(op_text(o)),
         }
     }
@@ -504,7 +615,7 @@ fn oracle(case: &Case, run: &ImplRun) -> Vec<String> {
         if tok == "noreturn" {
             let how = run.died.clone().unwrap_or_default();
             match op {
-                Op::Rt { s } => bad.push(format!(
+                Op::Rt { s } | Op::Rti { s, .. } => bad.push(format!(
                     "op {}: route_write(shard {}) did not return ({}: {})",
                     i,
                     s,
@@ -549,6 +660,37 @@ fn oracle(case: &Case, run: &ImplRun) -> Vec<String> {
             }
             _ => {}
         }
+        // registry as it was at the node lookup of every attempt of this route
+        let mut during: Vec<BTreeMap<u32, Shadow>> = Vec::new();
+        if let Op::Rti { spec, .. } = op {
+            let k = run.pauses.get(i).copied().unwrap_or(0);
+            for j in 0..k {
+                if !spec.is_empty() {
+                    for o in &spec[j % spec.len()] {
+                        match o {
+                            RegOp::St { n, st } => {
+                                if let Some(x) = reg.get_mut(n) {
+                                    x.st = *st
+                                }
+                            }
+                            RegOp::Ld { n, load } => {
+                                if let Some(x) = reg.get_mut(n) {
+                                    x.load = *load
+                                }
+                            }
+                            RegOp::Rm { n } => {
+                                reg.remove(n);
+                            }
+                        }
+                    }
+                }
+                during.push(reg.clone());
+            }
+        }
+        if during.is_empty() {
+            during.push(before.clone());
+        }
+        let at_lookup = during.last().unwrap().clone();
         let Some(now) = parse_assign(tok) else {
             bad.push(format!("op {}: unreadable observation {}", i, tok));
             break;
@@ -556,12 +698,12 @@ fn oracle(case: &Case, run: &ImplRun) -> Vec<String> {
         if res == "panic" {
             bad.push(format!("op {}: {} panicked", i, op_text(op)));
         }
-        if let Op::Rt { s } = op {
+        if let Op::Rt { s } | Op::Rti { s, .. } = op {
             if let Some(nid) = res.strip_prefix("ok:") {
                 match nid.parse::<u32>() {
                     Ok(n) => {
-                        if !shadow_eligible(&before, n) {
-                            let d = before.get(&n).map(|x| format!("type {} status {} load {}", x.ty, x.st, x.load)).unwrap_or("not registered".into());
+                        if !shadow_eligible(&at_lookup, n) {
+                            let d = at_lookup.get(&n).map(|x| format!("type {} status {} load {}", x.ty, x.st, x.load)).unwrap_or("not registered".into());
                             bad.push(format!("op {}: route_write(shard {}) returned node {} which cannot accept writes ({})", i, s, n, d));
                         }
                         if now.get(s) != Some(&n) {
@@ -578,7 +720,8 @@ fn oracle(case: &Case, run: &ImplRun) -> Vec<String> {
         if !matches!(op, Op::Rb) {
             for (s, n_old) in &prev {
                 if now.get(s) != Some(n_old) {
-                    let ok = matches!(op, Op::Rt { s: rs } if rs == s) && !shadow_eligible(&before, *n_old);
+                    let ok = matches!(op, Op::Rt { s: rs } | Op::Rti { s: rs, .. } if rs == s)
+                        && (!shadow_eligible(&before, *n_old) || during.iter().any(|r| !shadow_eligible(r, *n_old)));
                     if !ok {
                         bad.push(format!(
                             "op {} ({}): shard {} moved from node {} to {:?} although {}",
@@ -593,7 +736,7 @@ fn oracle(case: &Case, run: &ImplRun) -> Vec<String> {
                 }
             }
             for s in now.keys() {
-                if !prev.contains_key(s) && !matches!(op, Op::Rt { s: rs } if rs == s) {
+                if !prev.contains_key(s) && !matches!(op, Op::Rt { s: rs } | Op::Rti { s: rs, .. } if rs == s) {
                     bad.push(format!("op {} ({}): shard {} became assigned without being routed", i, op_text(op), s));
                 }
             }
@@ -641,7 +784,25 @@ fn gen_case(rng: &mut Rng, report: &mut Report) -> Case {
         let r = rng.below(100);
         let extra = if rng.chance(1, 15) { 1 } else { 0 };
         let n = rng.below(k as u64 + extra) as u32;
-        let op = if r < 38 {
+        let op = if r < 5 {
+            // a route during which another task changes the registry
+            let natt = rng.range_usize(1, 3);
+            let spec: Vec<Vec<RegOp>> = (0..natt)
+                .map(|_| {
+                    (0..rng.range_usize(0, 2))
+                        .map(|_| {
+                            let m = rng.below(k as u64) as u32;
+                            match rng.below(10) {
+                                0..=4 => RegOp::St { n: m, st: rng.below(4) as u8 },
+                                5..=7 => RegOp::Ld { n: m, load: gen_load(rng) },
+                                _ => RegOp::Rm { n: m },
+                            }
+                        })
+                        .collect()
+                })
+                .collect();
+            Op::Rti { s: rng.below(ns as u64) as u32, spec }
+        } else if r < 38 {
             Op::Rt { s: rng.below(ns as u64) as u32 }
         } else if r < 50 {
             Op::Reg { n, ty: gen_type(rng), st: if rng.chance(1, 6) { rng.below(4) as u8 } else { 0 }, load: if rng.chance(1, 3) { gen_load(rng) } else { rng.below(60) as u8 } }
@@ -679,6 +840,7 @@ fn gen_case(rng: &mut Rng, report: &mut Report) -> Case {
             Op::Rm { .. } => "op.remove",
             Op::Rb => "op.rebalance",
             Op::Rt { .. } => "op.route",
+            Op::Rti { .. } => "op.route_with_interference",
             Op::Ob => "op.observe",
         });
     }
@@ -749,6 +911,29 @@ fn corpus() -> Vec<(String, Case)> {
         ops.push(Op::Ob);
         v.push((format!("ties.s{}", strat), Case { strat, salt: 4, ops }));
     }
+    // another task keeps taking away the node that was just assigned and giving back the other
+    // one: without the bound on the retry this route never returns
+    for strat in 0..3u8 {
+        for (a, b) in [(0u32, 1u32), (1, 0)] {
+            let adversary = vec![
+                vec![RegOp::St { n: a, st: 3 }, RegOp::St { n: b, st: 0 }],
+                vec![RegOp::St { n: b, st: 3 }, RegOp::St { n: a, st: 0 }],
+            ];
+            let mut ops = vec![reg(0), reg(1)];
+            for s in 0..4 {
+                ops.push(Op::Rti { s, spec: adversary.clone() });
+                ops.push(Op::St { n: 0, st: 0 });
+                ops.push(Op::St { n: 1, st: 0 });
+            }
+            // overload instead of drain; removal of the assigned node; nothing at all
+            ops.push(Op::Rti { s: 5, spec: vec![vec![RegOp::Ld { n: a, load: 95 }, RegOp::Ld { n: b, load: 94 }], vec![RegOp::Ld { n: b, load: 95 }, RegOp::Ld { n: a, load: 94 }]] });
+            ops.push(Op::Rti { s: 6, spec: vec![vec![]] });
+            ops.push(Op::Rti { s: 7, spec: vec![vec![RegOp::Rm { n: a }], vec![RegOp::Rm { n: b }]] });
+            ops.extend(routes(8));
+            ops.push(Op::Ob);
+            v.push((format!("interference.s{}", strat), Case { strat, salt: 6, ops }));
+        }
+    }
     // minimised cases kept as files (one case per line, '#' comments)
     if let Ok(rd) = std::fs::read_dir("corpus/C19") {
         let mut files: Vec<_> = rd.filter_map(|e| e.ok()).map(|e| e.path()).collect();
@@ -777,9 +962,9 @@ fn nontrivial(c: &Case) -> bool {
     for o in &c.ops {
         match o {
             Op::Reg { .. } => seen_reg = true,
-            Op::Rt { .. } if seen_reg && !routed => routed = true,
+            Op::Rt { .. } | Op::Rti { .. } if seen_reg && !routed => routed = true,
             Op::St { .. } | Op::Dr { .. } | Op::Ld { .. } | Op::Rm { .. } | Op::Rb if routed => seen_change = true,
-            Op::Rt { .. } if seen_change => return true,
+            Op::Rt { .. } | Op::Rti { .. } if seen_change => return true,
             _ => {}
         }
     }
@@ -861,7 +1046,9 @@ fn main() {
         }
         let ml = model_line(&case, &run, vnodes);
         let (differs, model_out) = model.differs(&ml, &impl_out);
-        report.sample(json!({"history": text, "impl": impl_out, "model": model_out}));
+        if case.ops.len() <= 12 && origin == "random" {
+            report.sample(json!({"history": text, "impl": impl_out, "model": model_out}));
+        }
         let bad = oracle(&case, &run);
         if differs || !bad.is_empty() {
             failing += 1;
